@@ -76,6 +76,7 @@ class CaseResult:
         self.model = {}
         self.checks = []       # CHECK texts in order
         self.checkres = {}
+        self.klass = {}
         self.complete = False
 
 
@@ -112,6 +113,9 @@ def _parse(impl_text, model_text):
         elif line.startswith("MODEL "):
             parts = line.split(" ", 2)
             cur.model[parts[1]] = parts[2] if len(parts) > 2 else ""
+        elif line.startswith("CLASS "):
+            parts = line.split(" ", 2)
+            cur.klass[parts[1]] = parts[2] if len(parts) > 2 else ""
         elif line.startswith("CHECKRES "):
             parts = line.split(" ", 2)
             cur.checkres[int(parts[1])] = parts[2] if len(parts) > 2 else ""
